@@ -80,6 +80,7 @@ func checkC06(r *Run) {
 	r.Rule("C06.R1.complete", "after supersedes reported true for an operation, every path of that iteration applies it (no further filtering of superseding operations, tombstones included)", 2)
 	r.Rule("C06.R6.lease", "leaseAllocator.getLease answers with the Leaseholder of the stored digest whenever one exists, whatever its variant: a deleted key keeps its leaseholder, so versions of one key always come from one counter", 1)
 	r.Rule("C06.R7.rule", "the conflict rule itself: with a stored digest, supersedes(op) is true exactly when op's version is newer, or equal with a higher leaseholder (finite case analysis over the 9 orderings; an older operation never wins)", 1)
+	r.Rule("C06.ERR", "no error returned by a call is discarded in aspen/internal/kv except the tabled sites (a swallowed engine or counter error lets an operation count as applied)", 1)
 	r.Rule("C06.R2.digest", "after every Operation.apply each path to a normal continuation passes op.Digest().apply with the same writer; no digest is written without its value", 3)
 	r.Rule("C06.R3.version", "Operation.Version is written only in versionAssigner.assign (from the counter value read before a successful counter.Add), Digest.Operation and recoveryServer.recoverPeer", 4)
 	r.Rule("C06.R4.topology", "kv.Open wires gossip ingress -> filterPersist only, leaseProxy(local) -> versionAssigner -> persist, filterPersist(accepted) -> persist_delta, filterPersist(rejected) -> feedback_sender, and the lease proxy takes the local route iff Leaseholder == HostKey()", 9)
@@ -90,6 +91,7 @@ func checkC06(r *Run) {
 	checkKVTopologyC06(r, k)
 	checkRecoveryServer(r, k)
 	checkLeaseSticky(r, k)
+	checkErrDrop(r, k.p, "C06.ERR", func(fn *FuncNode) bool { return fn.InPkgs("aspen/internal/kv") }, 100)
 	checkConflictRule(r, k, "C06.R7")
 }
 
